@@ -3,7 +3,7 @@ From Coq Require Import List Permutation String.
 From TS Require Import Model.Str Model.Outcome Model.Unicode Model.Syntax Model.Rename Model.Types Model.Parse Model.Reconcile Model.Collect Model.Lang.Common Model.MultiFile.
 From TS Require Model.Writer.
 From TS Require Import Spec.C14Spec.
-From TS Require Proofs.C14 Proofs.C14Front Proofs.C14Main Proofs.C14Imports Proofs.C14Witness.
+From TS Require Proofs.C14 Proofs.C14Front Proofs.C14Main Proofs.C14Imports Proofs.C14Order Proofs.C14Witness.
 Import ListNotations.
 Local Open Scope string_scope.
 From TS Require Props.C14.
@@ -111,7 +111,7 @@ Goal forall (uc : unicode), unicode_ok uc ->
         (scoped_pairs (crate_imports hc (multi_crates ho_crate arrivals) c pd)) = true.
 Proof. exact Props.C14.C14_imports_good. Qed.
 Print Assumptions Props.C14.C14_imports_good.
-Goal forall ws mapped s c d n, dom_C14 ws mapped s c d n = true -> known_C14 ws s c d n = None.
+Goal forall ws mapped s c d n, dom_C14 ws mapped s c d n = true -> known_C14 ws mapped s c d n = None.
 Proof. exact Props.C14.C14_dom_excludes_known. Qed.
 Print Assumptions Props.C14.C14_dom_excludes_known.
 Goal exists arrivals pd v,
@@ -122,6 +122,27 @@ Goal exists arrivals pd v,
     rv_dom v = true /\ rv_known v = None /\ rv_imported v = true.
 Proof. exact Props.C14.C14_imports_complete_nonvacuous. Qed.
 Print Assumptions Props.C14.C14_imports_complete_nonvacuous.
+Goal renamed_in (Proofs.C14Main.c14_infos uc_exec [] Proofs.C14Witness.ws_glob_renamed) (lit "a") (lit "A2") = lit "A2Renamed" /\
+  exists arrivals pd v,
+    parse_workspace uc_exec [] [] (fun l => l) Proofs.C14Witness.ws_glob_renamed = Ok arrivals /\
+    In (lit "my_crate", pd) (multi_crates (fun l => l) arrivals) /\
+    In v (judge_crate (Proofs.C14Main.c14_infos uc_exec [] Proofs.C14Witness.ws_glob_renamed) [] (lit "my_crate")
+            (scoped_pairs (crate_imports (fun l => l) (multi_crates (fun l => l) arrivals) (lit "my_crate") pd))) /\
+    rv_name v = lit "A2" /\ rv_from v = lit "a" /\ rv_dom v = true /\ rv_known v = None /\ rv_imported v = true.
+Proof. exact Props.C14.C14_imports_complete_glob_nonvacuous. Qed.
+Print Assumptions Props.C14.C14_imports_complete_glob_nonvacuous.
+Goal forall (ct : crate_types) (own : str) (l1 l2 : list imported),
+    (forall x, In x l1 <-> In x l2) ->
+    forall k n, In (k, n) (scoped_pairs (used_imports ct own l1)) <-> In (k, n) (scoped_pairs (used_imports ct own l2)).
+Proof. exact Props.C14.C14_imports_iteration_order_irrelevant. Qed.
+Print Assumptions Props.C14.C14_imports_iteration_order_irrelevant.
+Goal (forall (ct : crate_types) (own : str) (l1 l2 : list imported),
+     (forall x, In x l1 <-> In x l2) -> used_imports ct own l1 = used_imports ct own l2) /\
+  (forall (hc : crate_types -> crate_types) (cs : crates) (cn : str) (pd : parsed) (ho : list imported -> list imported),
+     Proofs.C14Front.oracle_ok ho ->
+     crate_imports hc cs cn (with_imports pd (ho (p_imports pd))) = crate_imports hc cs cn pd).
+Proof. exact Props.C14.C14_import_list_order_irrelevant. Qed.
+Print Assumptions Props.C14.C14_import_list_order_irrelevant.
 Goal exists arrivals pd v,
     parse_workspace uc_exec [] [] (fun l => l) Proofs.C14Witness.ws_renamed = Ok arrivals /\
     In (lit "my_crate", pd) (multi_crates (fun l => l) arrivals) /\
@@ -131,14 +152,6 @@ Goal exists arrivals pd v,
 Proof. exact Props.C14.C14_renamed_import_refuted. Qed.
 Print Assumptions Props.C14.C14_renamed_import_refuted.
 Goal exists arrivals pd v,
-    parse_workspace uc_exec [] [] (fun l => l) Proofs.C14Witness.ws_glob = Ok arrivals /\
-    In (lit "my_crate", pd) (multi_crates (fun l => l) arrivals) /\
-    In v (judge_crate (Proofs.C14Main.c14_infos uc_exec [] Proofs.C14Witness.ws_glob) [] (lit "my_crate")
-            (scoped_pairs (crate_imports (fun l => l) (multi_crates (fun l => l) arrivals) (lit "my_crate") pd))) /\
-    rv_known v = Some "C14-glob" /\ rv_imported v = false.
-Proof. exact Props.C14.C14_glob_refuted. Qed.
-Print Assumptions Props.C14.C14_glob_refuted.
-Goal exists arrivals pd v,
     parse_workspace uc_exec [] [] (fun l => l) Proofs.C14Witness.ws_same_name = Ok arrivals /\
     In (lit "my_crate", pd) (multi_crates (fun l => l) arrivals) /\
     In v (judge_crate (Proofs.C14Main.c14_infos uc_exec [] Proofs.C14Witness.ws_same_name) [] (lit "my_crate")
@@ -146,23 +159,33 @@ Goal exists arrivals pd v,
     rv_known v = Some "C14-same-name" /\ rv_imported v = false.
 Proof. exact Props.C14.C14_same_name_refuted. Qed.
 Print Assumptions Props.C14.C14_same_name_refuted.
-Goal Proofs.C14Witness.w_run (fun l => l) (fun l => l) Proofs.C14Witness.ws_glob_explicit (lit "my_crate") =
-    Some ([(lit "a", lit "A1"); (lit "a", lit "A2Renamed"); (lit "a", lit "A3")], [(lit "A1", lit "a", true, None, true)]) /\
-  Proofs.C14Witness.w_run (@rev _) (fun l => l) Proofs.C14Witness.ws_glob_explicit (lit "my_crate") =
-    Some ([(lit "a", lit "A1")], [(lit "A1", lit "a", true, None, true)]).
-Proof. exact Props.C14.C14_glob_order_refuted. Qed.
-Print Assumptions Props.C14.C14_glob_order_refuted.
 Goal Proofs.C14Witness.w_run (fun l => l) (fun l => l) Proofs.C14Witness.ws_same_name (lit "my_crate") =
     Some ([(lit "a", lit "S")], [(lit "S", lit "a", false, Some "C14-same-name", true)]) /\
   Proofs.C14Witness.w_run (fun l => l) (@rev _) Proofs.C14Witness.ws_same_name (lit "my_crate") =
     Some ([(lit "c", lit "S")], [(lit "S", lit "a", false, Some "C14-same-name", false)]).
 Proof. exact Props.C14.C14_same_name_order_refuted. Qed.
 Print Assumptions Props.C14.C14_same_name_order_refuted.
-Goal exists verdicts,
-    Proofs.C14Witness.w_run (fun l => l) (fun l => l) Proofs.C14Witness.ws_glob_const (lit "my_crate") =
-      Some ([(lit "k", lit "K1"); (lit "k", lit "MyConst")], verdicts) /\
-    const_imports (Proofs.C14Main.c14_infos uc_exec [] Proofs.C14Witness.ws_glob_const) [(lit "k", lit "K1"); (lit "k", lit "MyConst")]
-      = [(lit "k", lit "MyConst")] /\
-    str_to_uppercase uc_exec (to_snake_case uc_exec (lit "MyConst")) = lit "MY_CONST".
-Proof. exact Props.C14.C14_glob_const_refuted. Qed.
-Print Assumptions Props.C14.C14_glob_const_refuted.
+Goal exists arrivals pd v,
+    parse_workspace uc_exec [] [] (fun l => l) Proofs.C14Witness.ws_glob = Ok arrivals /\
+    In (lit "my_crate", pd) (multi_crates (fun l => l) arrivals) /\
+    In v (judge_crate (Proofs.C14Main.c14_infos uc_exec [] Proofs.C14Witness.ws_glob) [] (lit "my_crate")
+            (scoped_pairs (crate_imports (fun l => l) (multi_crates (fun l => l) arrivals) (lit "my_crate") pd))) /\
+    rv_dom v = true /\ rv_known v = None /\ rv_imported v = true.
+Proof. exact Props.C14.C14_glob_fixed. Qed.
+Print Assumptions Props.C14.C14_glob_fixed.
+Goal Proofs.C14Witness.w_run (fun l => l) (fun l => l) Proofs.C14Witness.ws_glob_explicit (lit "my_crate") =
+    Some ([(lit "a", lit "A1"); (lit "a", lit "A2Renamed"); (lit "a", lit "A3")], [(lit "A1", lit "a", true, None, true)]) /\
+  Proofs.C14Witness.w_run (@rev _) (fun l => l) Proofs.C14Witness.ws_glob_explicit (lit "my_crate") =
+    Some ([(lit "a", lit "A1"); (lit "a", lit "A2Renamed"); (lit "a", lit "A3")], [(lit "A1", lit "a", true, None, true)]).
+Proof. exact Props.C14.C14_glob_order_fixed. Qed.
+Print Assumptions Props.C14.C14_glob_order_fixed.
+Goal Proofs.C14Witness.w_run (fun l => l) (fun l => l) Proofs.C14Witness.ws_glob_const (lit "my_crate") =
+    Some ([(lit "k", lit "K1")], [(lit "K1", lit "k", true, None, true)]) /\
+  Proofs.C14Witness.w_run (@rev _) (fun l => l) Proofs.C14Witness.ws_glob_const (lit "my_crate") =
+    Some ([(lit "k", lit "K1")], [(lit "K1", lit "k", true, None, true)]) /\
+  unsound_imports (Proofs.C14Main.c14_infos uc_exec [] Proofs.C14Witness.ws_glob_const) (lit "my_crate")
+    [(lit "k", lit "K1"); (lit "k", lit "MyConst")] = [(lit "k", lit "MyConst")] /\
+  const_imports (Proofs.C14Main.c14_infos uc_exec [] Proofs.C14Witness.ws_glob_const) [(lit "k", lit "K1"); (lit "k", lit "MyConst")]
+    = [(lit "k", lit "MyConst")].
+Proof. exact Props.C14.C14_glob_const_fixed. Qed.
+Print Assumptions Props.C14.C14_glob_const_fixed.
